@@ -77,8 +77,8 @@ func (f *Merge) Call(s *slip.Scope, args slip.List, depth int) (result slip.Obje
 	default:
 		slip.TypePanic(s, depth, "result-type", ta, "nil", "list", "string", "vector", "octets")
 	}
-	seq1 := slip.CoerceToList(args[1]).(slip.List)
-	seq2 := slip.CoerceToList(args[2]).(slip.List)
+	seq1, _ := slip.CoerceToList(args[1]).(slip.List)
+	seq2, _ := slip.CoerceToList(args[2]).(slip.List)
 	d2 := depth + 1
 	var (
 		keyFunc   slip.Caller
@@ -107,13 +107,13 @@ func (f *Merge) Call(s *slip.Scope, args slip.List, depth int) (result slip.Obje
 			k1 = keyFunc.Call(s, slip.List{k1}, d2)
 			k2 = keyFunc.Call(s, slip.List{k2}, d2)
 		}
-		var less bool
+		var less2 bool // sequence-2 element is strictly less, otherwise sequence-1 goes first (stable)
 		if predicate == nil {
-			less = sortLess(k1, k2)
+			less2 = sortLess(k2, k1)
 		} else {
-			less = predicate.Call(s, slip.List{k1, k2}, d2) != nil
+			less2 = predicate.Call(s, slip.List{k2, k1}, d2) != nil
 		}
-		if less {
+		if !less2 {
 			rlist = append(rlist, seq1[0])
 			seq1 = seq1[1:]
 		} else {
